@@ -30,8 +30,8 @@ theorem decodeItem_format (k : Str) (v : ArgVal) :
     decodeItem (format_query_argument k v) = (k, wireVal v) := by
   have hk : '=' ∉ quote k := quote_not_mem k '=' (by decide)
   cases v <;>
-    simp only [format_query_argument, decodeItem, wireVal, splitFirst_notMem _ _ hk,
-      splitFirst_append_sep _ _ _ hk, unquote_quote_slash, Option.map]
+    simp only [format_query_argument, decodeItem, wireVal, splitFirst_notMem_s20 _ _ hk,
+      splitFirst_append_sep_s20 _ _ _ hk, unquote_quote_slash, Option.map]
 
 theorem format_query_argument_no_amp (k : Str) (v : ArgVal) : '&' ∉ format_query_argument k v := by
   have hk : '&' ∉ quote k := quote_not_mem k '&' (by decide)
@@ -67,7 +67,7 @@ theorem queryString_no_hash (items : List (Str × ArgVal)) : '#' ∉ queryString
     | nil => simpa [join] using h1
     | cons kv2 rest =>
       simp only [List.map_cons] at ih ⊢
-      rw [join_cons_cons]
+      rw [join_cons_cons_s20]
       intro hm
       simp only [List.mem_append, List.mem_singleton] at hm
       rcases hm with (hm | hm) | hm
@@ -137,8 +137,8 @@ theorem qslItem_wireArg (name : Str) (value : Option Str) :
   have hk : '=' ∉ quote name := quote_not_mem name '=' (by decide)
   unfold qslItem wireArg
   cases value with
-  | none => simp [splitFirst_notMem _ _ hk]
-  | some v => simp [splitFirst_append_sep _ _ _ hk]
+  | none => simp [splitFirst_notMem_s20 _ _ hk]
+  | some v => simp [splitFirst_append_sep_s20 _ _ _ hk]
 
 theorem lookupQuery_append_new (items : List Str) (name : Str) (value : Option Str)
     (hnew : ∀ it ∈ items, (qslItem it).1 ≠ quote name) :
@@ -159,8 +159,8 @@ theorem add_query_argument_chars (url name : Str) (value : Option Str) :
       c ∈ url ∨ c ∈ wireArg name value ∨ c = '?' ∨ c = '&' ∨ c = '#' := by
   intro c hc
   rw [add_query_argument_eq] at hc
-  have hf := splitFirst_spec url '#'
-  have hq := splitFirst_spec (splitFirst url '#').1 '?'
+  have hf := splitFirst_spec_s20 url '#'
+  have hq := splitFirst_spec_s20 (splitFirst url '#').1 '?'
   have hmain : ∀ x ∈ (splitFirst url '#').1, x ∈ url := by
     intro x hx
     cases hb : (splitFirst url '#').2 with
